@@ -210,6 +210,15 @@ def tolerance(Kmat, j, times):
     # ~1e3 eps |K| for stiff K): c(t) computed from it is exact for K + R V^-1, which moves c by <= t |R| cond(V) |j|
     with np.errstate(all="ignore"):
         resid = float(np.abs(Kmat @ V - V * ev).max())
+        try:
+            # the documented route takes LEFT eigenvectors of K^T; for graded (stiff) K LAPACK's left eigenvectors carry a
+            # larger residual than the right ones (1e-10 |K| seen for rates spanning 1e-10 .. 1e2)
+            from scipy.linalg import eig as _eig
+
+            evl, Vl = _eig(Kmat.T, left=True, right=False)
+            resid = max(resid, float(np.abs(Kmat @ Vl.real - Vl.real * evl.real).max()))
+        except Exception:  # noqa
+            pass
     jn = max(np.abs(j).sum(), 1.0)
     return (64 * np.finfo(float).eps * max(condV, 1.0) * growth * jn + 4 * float(np.max(times)) * resid * max(condV, 1.0) * jn + 1e-300), condV
 
@@ -313,6 +322,9 @@ def check_result(case, order, rec, cap, rng):
         with time_limit(60):
             res = optimize(scheme, verbose=False, raise_exception=True)
     except (Exception, CaseTimeout) as e:  # noqa
+        if not K.spectrum_ok(reference(case, order)[0])[0]:
+            rec.skip("K has complex or near-degenerate eigenvalues (outside the property): optimisation raised")
+            return
         rec.violation(f"optimize-raises:{type(e).__name__}", ctx, f"{type(e).__name__}: {str(e)[:200]}")
         return
     rec.count("results_checked")
